@@ -438,6 +438,7 @@ func (s *Server) applyFault(c *Call, f *Fault) (runtime.Object, error) {
 	key := c.NS + "/" + c.Name
 	switch f.Mode {
 	case "crash-before":
+		c.After = c.Before // nothing was applied
 		panic(CrashSentinel{At: c.String()})
 	case "crash-after":
 		s.do(c)
